@@ -612,3 +612,21 @@ def base_local(body, place, through=None, depth=0):
     if "callee" in t and t["args"] and (through.search(callee(t)) or through.search(callee_decl(t))) and op_place(t["args"][0]) is not None:
         return base_local(body, op_place(t["args"][0]), through, depth + 1)
     return l
+
+
+def expr_mentions(e):
+    """(fields, callees) occurring anywhere in an expression tree built by expr_of()"""
+    fields, calls = set(), set()
+
+    def walk(x):
+        if isinstance(x, (tuple, list)):
+            if len(x) >= 3 and x[0] == "path" and isinstance(x[2], list):
+                fields.update(f for f in x[2] if isinstance(f, str))
+            elif len(x) >= 3 and x[0] == "proj" and isinstance(x[2], list):
+                fields.update(f for f in x[2] if isinstance(f, str))
+            elif len(x) >= 2 and x[0] == "call" and isinstance(x[1], str):
+                calls.add(x[1])
+            for y in x:
+                walk(y)
+    walk(e)
+    return fields, calls
